@@ -78,7 +78,12 @@ partial def sexpOfValue : Value → Sexp
   | .null => .atom "null"
   | .irrelevant => .atom "irrelevant"
   | .bool b => .list [.atom "b", Sexp.ofBool b]
-  | .num d => .list [.atom "n", .atom (if d.neg then "1" else "0"), Sexp.ofNat d.coeff, Sexp.ofInt d.exp]
+  | .num d =>
+    -- a positive exponent is not observable through the public API of FeelNumber (1E+1 and 10
+    -- print alike): expand it, as the harness reads numbers from their plain text
+    if d.exp > 0 then
+      .list [.atom "n", .atom (if d.neg then "1" else "0"), Sexp.ofNat (d.coeff * 10 ^ d.exp.toNat), Sexp.ofInt 0]
+    else .list [.atom "n", .atom (if d.neg then "1" else "0"), Sexp.ofNat d.coeff, Sexp.ofInt d.exp]
   | .str s => Sexp.ofStr s
   | .date y m d => .list [.atom "d", Sexp.ofInt y, Sexp.ofNat m, Sexp.ofNat d]
   | .time t => .list [.atom "t", Sexp.ofStr t.text, match t.key with | some k => Sexp.ofInt k | none => .atom "none"]
